@@ -152,17 +152,17 @@ def _batch(sel: List[int], deps: List[bool], ncs: List[int], sast=(False, False,
     return ctx, cms, log
 
 
-def batch_equals_sequential(p: int, n: int, d0: bool, d1: bool, d2: bool, c0: int, c1: int, c2: int, s0: bool, s1: bool) -> bool:
+def batch_equals_sequential(p: int, n: int, d0: bool, d1: bool, c0: int, c1: int, s0: bool, s1: bool) -> bool:
     """codemodder.apply_codemods over n <= 3 distinct codemods (find-and-fix or tool-driven, symbolic) in an arbitrary order: each codemod's apply is
     followed by its own dependency processing, strictly in list order; the per-codemod results compiled from the
     batch context equal those compiled from a fresh context that ran that codemod alone.
-    pre: 1 <= n <= 3 and 0 <= c0 <= 1 and 0 <= c1 <= 1 and 0 <= c2 <= 1
+    pre: 1 <= n <= 3 and 0 <= c0 <= 1 and 0 <= c1 <= 1
     post: _
     """
     from harness.c11 import perm
 
     sel = perm(p)[:n]
-    deps, ncs = [d0, d1, d2], [c0, c1, c2]
+    deps, ncs = [d0, d1, False], [c0, c1, 1]
     sast = (s0, s1, False)
     ctx, cms, log = _batch(sel, deps, ncs, sast)
     exp_log = []
@@ -256,7 +256,7 @@ def planted_cross_talk(a: int, b: int) -> bool:
 
 def warmup():
     inductive_step([0, 1, 0], 1, 2, 1, 1, True)
-    batch_equals_sequential(3, 3, True, False, True, 1, 0, 1, False, True)
+    batch_equals_sequential(3, 3, True, False, 1, 0, False, True)
     shared_manifest(True, False, False)
     shared_manifest(False, True, True)
 
@@ -282,7 +282,7 @@ SPEC = {
     "outside": ["the evolving file tree (a later codemod sees an earlier one's output)", "the semgrep pre-filter computed once on the original tree (needs the semgrep binary): the part of C09 most likely to fail in practice is NOT decided here", "functools.cache'd SAST loaders across codemods"],
     "xh": [
         Xh("inductive_step", 400, 1800),
-        Xh("batch_equals_sequential", 400, 900),
+        Xh("batch_equals_sequential", 500, 1200),
         Xh("shared_manifest", 200, 400),
         Xh("planted_cross_talk", 60, 120, twin=False, expect="refuted"),
     ],
